@@ -81,55 +81,64 @@ Proof.
   destruct (through_fw _ _); [reflexivity|]. rewrite IH. reflexivity.
 Qed.
 
-(* after addMsg: the rest of feedMsg leaves the driver/queue state alone *)
-Lemma feed_rest_d n m d s :
-  quiet ->
-  fst (fst (let r := addmsg n m s in
-            let p2 := (apply_reconn (h_reconn r) d, h_st r) in
-            match through_try_at 3 gen.T07.FEED_ADDMSG_CATCHES (through_fw (fw_state s_addMsg) (h_exc r)) with
-            | Some e => (p2, Some e)
-            | None =>
-                match run_infilters n m cbs p2 with
-                | (p3, Some e, _) => (p3, Some e)
-                | (p3, None, false) => (p3, None)
-                | (p3, None, true) => run_calls n m cbs p3
-                end
-            end)) = d.
+(* a PING is not a 005 *)
+Lemma is_ping_not_005 c : is_ping c = true -> seq_eqb c s_005 = false.
 Proof.
-  intros (Hqd & Hqa & Hqc). cbn zeta. rewrite Hqa. cbn [apply_reconn].
+  destruct c as [|a [|b [|c [|d [|e r]]]]]; try discriminate. intros _.
+  cbn. rewrite !andb_false_r. reflexivity.
+Qed.
+
+(* after addMsg: the rest of feedMsg leaves the driver/queue state alone, but for do005 rewriting state.supported *)
+Lemma feed_rest_d n m d s :
+  quiet -> seq_eqb (m_command m) s_005 = false -> fst (fst (feed_rest St addmsg cbs n m d s)) = d.
+Proof.
+  intros (Hqd & Hqa & Hqc) H5. unfold Model.feed_rest. cbn zeta. rewrite Hqa, H5. cbn [apply_reconn].
+  replace (match h_exc (addmsg n m s) with Some _ => d | None => d end) with d by (destruct (h_exc (addmsg n m s)); reflexivity).
   destruct (through_try_at _ _ _); [reflexivity|].
   pose proof (infilters_d n m cbs Hqc (d, h_st (addmsg n m s))) as H1.
   destruct (run_infilters n m cbs _) as [[p3 x] go]. cbn [fst] in H1.
   destruct x; [exact H1|]. destruct go; [|exact H1]. rewrite (calls_d n m cbs Hqc). exact H1.
 Qed.
 
-Lemma feed_body_d n m d s : quiet ->
-  let d' := fst (fst (feed_body n m (d, s))) in d' = d \/ exists a, d' = set_outq (outq d ++ [a]) d.
+Lemma feed_rest_conn n m d s :
+  quiet -> connected (fst (fst (feed_rest St addmsg cbs n m d s))) = connected d.
 Proof.
-  intros Hq. pose proof Hq as (Hqd & Hqa & Hqc). unfold Model.feed_body.
-  destruct (existsb _ _ && _); [left; reflexivity|].
+  intros (Hqd & Hqa & Hqc). unfold Model.feed_rest. cbn zeta. rewrite Hqa. cbn [apply_reconn].
+  set (d2 := match h_exc (addmsg n m s) with None => _ | Some _ => _ end).
+  assert (H2 : connected d2 = connected d).
+  { unfold d2. destruct (h_exc (addmsg n m s)); [reflexivity|]. destruct (seq_eqb _ _); reflexivity. }
+  destruct (through_try_at _ _ _); [exact H2|].
+  pose proof (infilters_d n m cbs Hqc (d2, h_st (addmsg n m s))) as H1.
+  destruct (run_infilters n m cbs _) as [[p3 x] go]. cbn [fst] in H1.
+  destruct x; cbn [fst]; [rewrite H1; exact H2|]. destruct go; cbn [fst]; [|rewrite H1; exact H2].
+  rewrite (calls_d n m cbs Hqc), H1. exact H2.
+Qed.
+
+Lemma feed_body_conn n m d s : quiet -> connected (fst (fst (feed_body n m (d, s)))) = connected d.
+Proof.
+  intros Hq. pose proof Hq as (Hqd & Hqa & Hqc). unfold Model.feed_body. rewrite tag_safe.
+  destruct (existsb _ _ && _); [reflexivity|].
   destruct (is_ping (m_command m)).
-  - destruct (m_args m) as [|a rest]; [left; reflexivity|].
-    destruct (valid_arg a); [|left; reflexivity].
-    right. exists a. cbn [snd fst]. apply (feed_rest_d n m (set_outq (outq d ++ [a]) d) s Hq).
-  - rewrite Hqd. cbn [apply_reconn]. destruct (h_exc (dispatch n m s)); [left; reflexivity|].
-    left. cbn [snd fst]. apply (feed_rest_d n m d (h_st (dispatch n m s)) Hq).
+  - destruct (m_args m) as [|a rest]; [reflexivity|].
+    destruct (valid_arg a); [|reflexivity].
+    cbn [snd fst]. rewrite (feed_rest_conn n m _ s Hq). reflexivity.
+  - rewrite Hqd. cbn [apply_reconn]. destruct (h_exc (dispatch n m s)); [reflexivity|].
+    cbn [snd fst]. apply (feed_rest_conn n m d _ Hq).
 Qed.
 
 Lemma feed_body_ping n m d s a rest : quiet ->
   is_ping (m_command m) = true -> m_args m = a :: rest -> valid_arg a = true ->
   fst (fst (feed_body n m (d, s))) = set_outq (outq d ++ [a]) d.
 Proof.
-  intros Hq Hp Ha Hv. unfold Model.feed_body. rewrite Ha, Hp, Hv. cbn [is_nil]. rewrite andb_false_r.
-  cbn [snd fst]. apply (feed_rest_d n m (set_outq (outq d ++ [a]) d) s Hq).
+  intros Hq Hp Ha Hv. unfold Model.feed_body. rewrite tag_safe, Ha, Hp, Hv. cbn [is_nil]. rewrite andb_false_r.
+  cbn [snd fst]. apply (feed_rest_d n m (set_outq (outq d ++ [a]) d) s Hq). apply is_ping_not_005. exact Hp.
 Qed.
 
 Lemma feed_msg_conn line m p : quiet -> connected (fst (fst (feed_msg line m p))) = connected (fst p).
 Proof.
   intro Hq. unfold Model.feed_msg. destruct p as [d s]. cbn [fst snd].
-  pose proof (feed_body_d (nfed d) m (note_fed line d) s Hq) as H.
-  destruct (feed_body _ m _) as [[d' s'] x]. cbn [fst] in *.
-  destruct H as [H|[a H]]; subst d'; reflexivity.
+  pose proof (feed_body_conn (nfed d) m (note_fed line d) s Hq) as H.
+  destruct (feed_body _ m _) as [[d' s'] x]. cbn [fst] in *. exact H.
 Qed.
 
 Lemma feed_msg_ping line m p a rest : quiet ->
@@ -166,6 +175,7 @@ Proof.
   destruct (outq d) as [|a q] eqn:Eq.
   - exists s. rewrite app_nil_r. destruct d; cbn in *; subst; reflexivity.
   - cbn [forallb] in Henc. apply andb_true_iff in Henc as [Ha Hqe].
+    rewrite tag_safe, andb_false_r.
     pose proof (run_outfilters_none St a (rev cbs) (out_ok_rev St cbs Ho) (set_outq q d, s)) as Hn.
     pose proof (outfilters_d a (rev cbs) (Forall_rev Hqc) (set_outq q d, s)) as Hd'.
     destruct (run_outfilters a (rev cbs) _) as [[d1 s1] x]. cbn [fst snd] in *. subst x d1.
@@ -311,6 +321,6 @@ Lemma partial_effects n m d s e :
   h_exc (dispatch n m s) = Some e ->
   feed_body n m (d, s) = ((apply_reconn (h_reconn (dispatch n m s)) d, h_st (dispatch n m s)), Some e).
 Proof.
-  intros Hp Hn He. unfold Model.feed_body. rewrite Hn, Hp, He. reflexivity.
+  intros Hp Hn He. unfold Model.feed_body. rewrite tag_safe, Hn, Hp, He. reflexivity.
 Qed.
 End Ping.
